@@ -185,6 +185,14 @@ bool prop(Tape &t, Report &R) {
     if (!runFlow(cov, params)) return false;
     reached = r0, threw = t0;
   }
+  // ... and rows cut into many short segments by tap cells
+  if (tail % 32 == 3 && !usesGlobal) {
+    CircuitSpec comb = genCombCircuit(tail);
+    R.classify("shape:rows-cut-into-17+-segments");
+    int r0 = reached, t0 = threw;
+    if (!runFlow(comb, params)) return false;
+    reached = r0, threw = t0;
+  }
   R.classify(threw ? "outcome:some-stage-threw" : "outcome:all-returned");
   if ((reached >= 2 || threw) && s.scale >= 1) R.nontrivial(s.hash() ^ Hasher().add(flow).add(deg).h, [&] { return s.json(12); });
   return true;
